@@ -716,6 +716,113 @@ def headers_list_is_verbatim(repo):
     return False
 
 
+def handed_headers(fi, c, pos, st_):
+    """[(value expression, statement it is evaluated at)] -- what call ``c`` passes as ``headers``: the keyword / positional
+    argument, or the entry ``'headers'`` of a mapping passed as ``**m`` when ``m`` is a local dict this function builds (a
+    display / ``dict(k=v)`` plus ``m['headers'] = v`` / ``m.update(headers=v)`` / ``m.setdefault('headers', v)``).  The
+    function's own ``**kwargs`` passed on is the caller's choice (as given): [].  None when no headers are passed."""
+    h = argn(c, 'headers', pos)
+    if h is not None:
+        return [(h, st_)]
+    out, seen_star = [], False
+    own_kw = fi.node.args.kwarg.arg if fi.node.args.kwarg else None
+    for k in c.keywords:
+        if k.arg is not None:
+            continue
+        seen_star = True
+        v = k.value
+        if isinstance(v, ast.Name) and v.id == own_kw:
+            continue
+        if isinstance(v, ast.Dict):
+            disp, name = v, None
+        elif isinstance(v, ast.Name) and v.id not in fi.params():
+            name = v.id
+            vals = [x for x in assigned_value(fi.node, name) if not isinstance(x[1], ast.AugAssign)]
+            if len(vals) != 1 or vals[0][2] is not None:
+                raise AnalysisError('%s passes **%s to the werkzeug response constructor: a mapping that is not built in one place' % (fi.qualname, name))
+            disp = vals[0][1]
+        else:
+            raise AnalysisError('%s passes **%s to the werkzeug response constructor: not followed' % (fi.qualname, short(v, 30)))
+        if isinstance(disp, ast.Dict):
+            for kk, vv in zip(disp.keys, disp.values):
+                if kk is None:
+                    if not (isinstance(vv, ast.Name) and vv.id == own_kw):
+                        raise AnalysisError('%s: the mapping passed as ** merges %s, which is not followed' % (fi.qualname, short(vv, 30)))
+                elif isinstance(kk, ast.Constant) and kk.value == 'headers':
+                    out.append((vv, stmt_of(fi.mod, disp) or st_))
+                elif not isinstance(kk, ast.Constant):
+                    raise AnalysisError('%s: the mapping passed as ** has a computed key' % fi.qualname)
+        elif isinstance(disp, ast.Call) and isinstance(disp.func, ast.Name) and disp.func.id == 'dict' and \
+                all(a_ is not None for a_ in [kw_.arg for kw_ in disp.keywords]) and \
+                (not disp.args or (len(disp.args) == 1 and isinstance(disp.args[0], ast.Name) and disp.args[0].id == own_kw)):
+            out.extend((kw_.value, stmt_of(fi.mod, disp) or st_) for kw_ in disp.keywords if kw_.arg == 'headers')
+        else:
+            raise AnalysisError('%s passes **%s to the werkzeug response constructor: %s is not a dict display / dict(k=v)' % (fi.qualname, name, short(disp, 30)))
+        if name is not None:
+            for n in walk_body(fi.node):
+                if isinstance(n, ast.Subscript) and isinstance(n.ctx, ast.Store) and isinstance(n.value, ast.Name) and n.value.id == name:
+                    par = fi.mod.parents.get(n)
+                    if isinstance(n.slice, ast.Constant):
+                        if n.slice.value == 'headers' and isinstance(par, ast.Assign):
+                            out.append((par.value, par))
+                    else:
+                        raise AnalysisError('%s stores into the mapping passed as ** under a computed key' % fi.qualname)
+                elif isinstance(n, ast.Call) and isinstance(n.func, ast.Attribute) and isinstance(n.func.value, ast.Name) and n.func.value.id == name:
+                    if n.func.attr == 'update':
+                        if n.args:
+                            raise AnalysisError('%s updates the mapping passed as ** from another mapping: not followed' % fi.qualname)
+                        out.extend((kw_.value, stmt_of(fi.mod, n)) for kw_ in n.keywords if kw_.arg == 'headers')
+                    elif n.func.attr == 'setdefault' and len(n.args) == 2 and isinstance(n.args[0], ast.Constant):
+                        if n.args[0].value == 'headers':
+                            out.append((n.args[1], stmt_of(fi.mod, n)))
+                    elif n.func.attr not in ('get', 'pop', 'keys', 'items', 'values', 'copy'):
+                        raise AnalysisError('%s: %s on the mapping passed as ** is not followed' % (fi.qualname, short(n, 40)))
+    if out:
+        return out
+    return [] if seen_star and own_kw is not None and any(k.arg is None and isinstance(k.value, ast.Name) and k.value.id == own_kw for k in c.keywords) else \
+        ([] if seen_star else None)
+
+
+def bad_headers_value(fi, h, at):
+    """Text when the value ``h`` (evaluated at statement ``at``) is, on some path, a list of pairs of unknown type that clastic
+    assembled -- following locals through their reaching definitions and helpers of the tree through their returns."""
+    bad = raw_pair_list(h)
+    if bad is not None or not isinstance(h, ast.Name) or h.id in fi.params():
+        return bad
+    fl = effects.Flow(fi)
+    seen, todo = set(), [(h.id, at)]
+    while todo and bad is None:
+        nm, at_ = todo.pop()
+        if (nm, id(at_)) in seen or len(seen) > 12:
+            continue
+        seen.add((nm, id(at_)))
+        for d in fl.reaching(nm, at_):
+            if d.kind == 'aug':
+                if any(x.kind == 'assign' and x.value is not None and isinstance(fl.unpacked(x)[0], (ast.List, ast.ListComp)) for x in fl.defs.get(nm, [])):
+                    bad = 'a list extended in place (%s)' % short(d.stmt, 40)
+                continue
+            if d.kind != 'assign':
+                continue
+            v, vat = fl.unpacked(d)
+            if v is None:
+                continue
+            bad = raw_pair_list(v)
+            if bad:
+                break
+            if isinstance(v, ast.Name) and v.id not in fi.params():
+                todo.append((v.id, d.stmt))
+            elif isinstance(v, ast.Call):
+                rc = resolve_callee(fi, v)
+                if rc is not None:
+                    # a helper of the tree that builds the value: what it returns
+                    for r in returns_of(rc[0]):
+                        if r.value is not None:
+                            t = raw_pair_list(deref(rc[0], r.value))
+                            if t:
+                                bad = '%s, returned by %s' % (t, rc[0].qualname)
+    return bad
+
+
 def check_header_handover(rep):
     """R13.g -- "string header pairs": the values of the headers a caller gives an error / response object may be of any type
     (an int ``Retry-After``, a list for a multi-valued header); werkzeug's ``Headers`` turns them into ``str`` pairs when it is
@@ -778,49 +885,19 @@ def check_header_handover(rep):
             for c in walk_body(fi.node):
                 if not isinstance(c, ast.Call):
                     continue
-                if not (any(k.arg == 'headers' for k in c.keywords) or len(c.args) >= 3):
+                if not (c.keywords or len(c.args) >= 3):
                     continue
                 pos = hands_to_werkzeug(fi, c)
                 if pos is None:
                     continue
-                h = argn(c, 'headers', pos)
-                if h is None:
+                st_ = stmt_of(fi.mod, c)
+                hs = handed_headers(fi, c, pos, st_)
+                if hs is None:
                     continue
                 n_sites += 1
-                st_ = stmt_of(fi.mod, c)
-                bad = raw_pair_list(h)
-                if bad is None and isinstance(h, ast.Name) and h.id not in fi.params():
-                    fl = effects.Flow(fi)
-                    seen, todo = set(), [(h.id, st_)]
-                    while todo and bad is None:
-                        nm, at = todo.pop()
-                        if (nm, id(at)) in seen or len(seen) > 12:
-                            continue
-                        seen.add((nm, id(at)))
-                        for d in fl.reaching(nm, at):
-                            if d.kind == 'aug':
-                                bad = 'a list extended in place (%s)' % short(d.stmt, 40) if any(
-                                    x.kind == 'assign' and x.value is not None and isinstance(fl.unpacked(x)[0], (ast.List, ast.ListComp)) for x in fl.defs.get(nm, [])) else None
-                                continue
-                            if d.kind != 'assign':
-                                continue
-                            v, vat = fl.unpacked(d)
-                            if v is None:
-                                continue
-                            bad = raw_pair_list(v)
-                            if bad:
-                                break
-                            if isinstance(v, ast.Name) and v.id not in fi.params():
-                                todo.append((v.id, d.stmt))
-                            elif isinstance(v, ast.Call):
-                                rc = resolve_callee(fi, v)
-                                if rc is not None:
-                                    # a helper of the tree that builds the value: what it returns
-                                    for r in returns_of(rc[0]):
-                                        if r.value is not None:
-                                            t = raw_pair_list(deref(rc[0], r.value))
-                                            if t:
-                                                bad = '%s, returned by %s' % (t, rc[0].qualname)
+                bad = None
+                for h, at in hs:
+                    bad = bad or bad_headers_value(fi, h, at)
                 rep.check('R13.g', fkey(fi, 'headers handed to werkzeug'), bad is None,
                           'the headers handed to the werkzeug response constructor are the caller\'s object as given / None / a mapping / a Headers '
                           'object: every value goes through werkzeug\'s normalisation' if bad is None else
